@@ -81,6 +81,15 @@ def run(ctx: Ctx) -> Result:
     mc = tlc.model_check("MC_Keys", cfg="MC_Keys.cfg", workers=4)
     if not mc["ok"]:
         raise tlc.MachineryError("MC_Keys failed\n" + mc["out"][-1500:])
+    # unbounded: Apalache proves the inductive invariant of the key discipline for arbitrary numbers of periods,
+    # stochastic variables and agents (spec/apalache/KeysInd.tla)
+    import subprocess
+    from ..tlc import SPEC
+
+    ap = subprocess.run([str(SPEC / "apalache" / "KeysIndStep.sh")], capture_output=True, text=True, check=False, timeout=3000)
+    if ap.returncode != 0 or ap.stdout.count("EXITCODE: OK") != 3:
+        raise tlc.MachineryError("Apalache did not prove the inductive invariant of spec/apalache/KeysInd.tla:\n" + ap.stdout[-800:] + ap.stderr[-400:])
+    res.merge_cov(apalache_obligations_discharged=3)
     kspecs = key_specs(ctx, ctx.n(16, 120))
     traces = keys.run_many("keys", kspecs)
     for t in traces:
@@ -130,6 +139,8 @@ def run(ctx: Ctx) -> Result:
                       "the previous and another variable's draw; (3) pairs of runs with the same / another seed; non-trivial = all")
     res.coverage["distinct_nontrivial"] = res.coverage.get("distinct_nontrivial", 0) + len(kspecs) + len(sspecs)
     res.assumptions += [
+        "Apalache: Init => IndInv, IndInv /\\ Next => IndInv', IndInv => NoKeyReuse for ARBITRARY NPeriods, NVars, NAgents (keys coded "
+        "by their position <<period, variable>> in the split tree); TLC (MC_Keys) checks the path-level module Keys for 4 x 3 x 3",
         "trusted: jax.random.split yields independent streams for distinct keys and jax.random.choice samples the distribution it "
         "is given; the key clauses (TraceKeys) establish that lcm uses every key once and hands distinct keys to periods, variables, agents",
         "frequencies: exact-integer 6-sigma acceptance region evaluated by TLC (TraceStats!CountOK) against the rows of the "
